@@ -1048,6 +1048,33 @@ func runRT(c rtCase) (*vrt.Result, *observation) {
 	return r, obs
 }
 
+// outcomeSym turns a failed execution into a symptom: deadlock, horizon, livelock, or panic plus a slug of
+// the panic message (so that two different panics never share a signature).
+func outcomeSym(r *vrt.Result) string {
+	if r.Outcome != "panic" {
+		return r.Outcome
+	}
+	msg := r.Panic
+	if i := strings.IndexByte(msg, '\n'); i >= 0 {
+		msg = msg[:i]
+	}
+	var sb strings.Builder
+	for _, c := range strings.ToLower(msg) {
+		switch {
+		case c >= 'a' && c <= 'z':
+			sb.WriteRune(c)
+		case c == ' ' || c == ':' || c == '_':
+			if sb.Len() > 0 && !strings.HasSuffix(sb.String(), "_") {
+				sb.WriteByte('_')
+			}
+		}
+		if sb.Len() >= 48 {
+			break
+		}
+	}
+	return "panic:" + strings.Trim(sb.String(), "_")
+}
+
 func outcomeDesc(r *vrt.Result) string {
 	var sb strings.Builder
 	sb.WriteString(r.Outcome)
@@ -1087,7 +1114,7 @@ func roundTripPart(out *shardOut, cases []rtCase, shard, nshards int) {
 			out.violate("roundtrip:"+sym, fmt.Sprintf("case %s: %s", cj, desc), replay)
 		}
 		if r.Outcome != "ok" || !obs.finished {
-			add(r.Outcome, outcomeDesc(r))
+			add(outcomeSym(r), outcomeDesc(r))
 			continue
 		}
 		nf, keys, multi := checkObservation(obs, add)
@@ -1402,7 +1429,7 @@ func concPart(out *shardOut, scen []concScenario, shard, nshards int, deadline t
 				out.violate("conc:"+sym, fmt.Sprintf("scenario %q schedule %v: %s (wire order: %v)", sc.Name, r.ChoiceSeq(), desc, r.Log), replay)
 			}
 			if r.Outcome != "ok" || obs == nil || !obs.finished {
-				add(r.Outcome, outcomeDesc(r))
+				add(outcomeSym(r), outcomeDesc(r))
 				return nviol < 20
 			}
 			nf, keys, _ := checkObservation(obs, add)
@@ -1973,7 +2000,7 @@ func replay(path string) {
 	case "roundtrip":
 		res, obs := runRT(r.Case)
 		if res.Outcome != "ok" || !obs.finished {
-			add(res.Outcome, outcomeDesc(res))
+			add(outcomeSym(res), outcomeDesc(res))
 		} else {
 			checkObservation(obs, add)
 		}
@@ -1985,7 +2012,7 @@ func replay(path string) {
 		}
 		fmt.Println("  wire order:", res.Log)
 		if res.Outcome != "ok" || !obs.finished {
-			add(res.Outcome, outcomeDesc(res))
+			add(outcomeSym(res), outcomeDesc(res))
 		} else {
 			checkObservation(obs, add)
 		}
